@@ -253,6 +253,36 @@ pub fn mistyped_initialised_names(source: &str) -> Vec<String> {
     out
 }
 
+/// Does `name` occur in the initialiser expression of some declaration?
+pub fn name_in_initialiser(source: &str, name: &str) -> bool {
+    let toks: Vec<(K, &str)> = lex(source)
+        .into_iter()
+        .filter(|t| t.kind != K::Trivia)
+        .map(|t| (t.kind, &source[t.start..t.end]))
+        .collect();
+    let mut in_var = false;
+    let mut i = 0;
+    while i < toks.len() {
+        let u = toks[i].1.to_ascii_uppercase();
+        if toks[i].0 == K::Word && (u == "VAR" || u.starts_with("VAR_")) {
+            in_var = true;
+        } else if u == "END_VAR" {
+            in_var = false;
+        } else if in_var && toks[i].1 == ":=" {
+            let mut k = i + 1;
+            while k < toks.len() && toks[k].1 != ";" {
+                if toks[k].0 == K::Word && toks[k].1.eq_ignore_ascii_case(name) {
+                    return true;
+                }
+                k += 1;
+            }
+            i = k;
+        }
+        i += 1;
+    }
+    false
+}
+
 fn has_signed_unsigned_literal_mix(tys: &[String]) -> bool {
     tys.iter().any(|t| SIGNED.contains(&t.as_str())) && tys.iter().any(|t| UNSIGNED.contains(&t.as_str()))
 }
@@ -294,6 +324,52 @@ pub fn in_method(source: &str, at: usize) -> bool {
         }
     }
     depth > 0
+}
+
+/// The UNTIL condition of the REPEAT whose body directly contains byte offset `at` (the debug
+/// hook fires per statement, so a fault raised while the UNTIL condition is evaluated is
+/// located at the last statement of the body).
+pub fn enclosing_until(source: &str, at: usize) -> Option<&str> {
+    let toks: Vec<super::mutate::Tok> = lex(source).into_iter().filter(|t| t.kind == K::Word).collect();
+    let word = |t: &super::mutate::Tok| source[t.start..t.end].to_ascii_uppercase();
+    // innermost construct open at `at`
+    let mut stack: Vec<&'static str> = Vec::new();
+    let mut idx = 0;
+    while idx < toks.len() && toks[idx].start <= at {
+        match word(&toks[idx]).as_str() {
+            "REPEAT" => stack.push("REPEAT"),
+            "WHILE" => stack.push("WHILE"),
+            "FOR" => stack.push("FOR"),
+            "IF" => stack.push("IF"),
+            "CASE" => stack.push("CASE"),
+            "END_REPEAT" | "END_WHILE" | "END_FOR" | "END_IF" | "END_CASE" => {
+                stack.pop();
+            }
+            _ => {}
+        }
+        idx += 1;
+    }
+    if stack.last() != Some(&"REPEAT") {
+        return None;
+    }
+    // forward to the matching UNTIL .. END_REPEAT
+    let mut depth = 0i32;
+    let mut until: Option<usize> = None;
+    while idx < toks.len() {
+        match word(&toks[idx]).as_str() {
+            "REPEAT" => depth += 1,
+            "UNTIL" if depth == 0 => until = Some(toks[idx].start),
+            "END_REPEAT" => {
+                if depth == 0 {
+                    return until.map(|u| &source[u..toks[idx].start]);
+                }
+                depth -= 1;
+            }
+            _ => {}
+        }
+        idx += 1;
+    }
+    None
 }
 
 pub struct SigInput<'a> {
@@ -348,20 +424,32 @@ pub fn match_known(inp: &SigInput<'_>) -> Option<&'static str> {
                 w != name && w.eq_ignore_ascii_case(&name)
             }
         });
-        return (other_spelling && (inp.open)(F4)).then_some(F4);
+        if other_spelling && (inp.open)(F4) {
+            return Some(F4);
+        }
+        // no early return: an undefined name can also come out of an unchecked initialiser (F41)
     }
     // ---- F41: declaration initialisers are not type-checked: the error is raised while a
     // frame's locals / temporaries are initialised, i.e. NOT by the statement the debug hook
     // saw last (a call statement or nothing at all) - accepted only when that statement does
     // not itself show the shape of the error: it is a call or there is none
-    if matches!(kind, "static:TypeMismatch" | "static:UndefinedVariable" | "static:ConditionNotBool") && has_nonliteral_initialiser(inp.source) {
+    if matches!(kind, "static:TypeMismatch" | "static:UndefinedVariable") && has_nonliteral_initialiser(inp.source) {
         let call_or_none = match inp.stmt {
-            None => true,
+            None => match &inp.failure.error {
+                Some(trust_runtime::error::RuntimeError::UndefinedVariable(n)) => name_in_initialiser(inp.source, n),
+                _ => true,
+            },
             Some(s) => {
-                let h = header(s);
+                let mut h = header(s);
+                if let Some(u) = inp.stmt_at.and_then(|at| enclosing_until(inp.source, at)) {
+                    h.push(' ');
+                    h.push_str(u);
+                }
                 match &inp.failure.error {
                     // the undefined name does not occur in the statement: it comes from an initialiser
-                    Some(trust_runtime::error::RuntimeError::UndefinedVariable(n)) => !lex(&h).iter().any(|t| t.kind == K::Word && h[t.start..t.end].eq_ignore_ascii_case(n)),
+                    Some(trust_runtime::error::RuntimeError::UndefinedVariable(n)) => {
+                        !lex(&h).iter().any(|t| t.kind == K::Word && h[t.start..t.end].eq_ignore_ascii_case(n)) && name_in_initialiser(inp.source, n)
+                    }
                     _ => false,
                 }
             }
@@ -377,7 +465,11 @@ pub fn match_known(inp: &SigInput<'_>) -> Option<&'static str> {
     if has_uncarried_at(inp.source) {
         if (inp.open)(F33) { return Some(F33); }
     }
-    let stmt = header(inp.stmt?);
+    let mut stmt = header(inp.stmt?);
+    if let Some(u) = inp.stmt_at.and_then(|at| enclosing_until(inp.source, at)) {
+        stmt.push(' ');
+        stmt.push_str(u);
+    }
     let up = stmt.to_ascii_uppercase();
     let tys = types_in(&stmt, &decl);
     // an untyped integer literal is lowered as DINT, i.e. it is a signed operand
@@ -487,6 +579,22 @@ pub fn match_known(inp: &SigInput<'_>) -> Option<&'static str> {
                 let arg = toks[i + 2].1;
                 if decl.iter().any(|(n, t)| n.eq_ignore_ascii_case(arg) && *t == src_ty) {
                     if (inp.open)(F8) { return Some(F8); }
+                }
+                // argument binding keeps the argument's type: a variable of ANOTHER numeric
+                // type is accepted for the IN parameter (implicit widening) but not converted
+                let numeric = |t: &str| SIGNED.contains(&t) || UNSIGNED.contains(&t) || t == "REAL" || t == "LREAL";
+                if numeric(&src_ty) && decl.iter().any(|(n, t)| n.eq_ignore_ascii_case(arg) && numeric(t) && *t != src_ty) {
+                    if (inp.open)(F8) { return Some(F8); }
+                }
+            }
+            // ... likewise a typed literal of another numeric type
+            if i + 3 < toks.len() && toks[i + 1].1 == "(" && toks[i + 2].0 == K::TypedLit && toks[i + 3].1 == ")" {
+                if let Some((p, _)) = toks[i + 2].1.split_once('#') {
+                    let p = p.to_ascii_uppercase();
+                    let numeric = |t: &str| SIGNED.contains(&t) || UNSIGNED.contains(&t) || t == "REAL" || t == "LREAL";
+                    if numeric(&src_ty) && numeric(&p) && p != src_ty {
+                        if (inp.open)(F8) { return Some(F8); }
+                    }
                 }
             }
         }
